@@ -733,17 +733,25 @@ impl<E: Eviction> CacheT<E> {
         proof { assert(garbages@.subrange(0, garbages@.len() as int) == garbages@); }
 //@end
 
-// ---- RawCache::flush: listener loop, then all evicted records handed to pipe.flush
-//@region foyer-memory/src/raw.rs :: impl~^impl<E, S, I> RawCache<E, S, I> where/fn flush name=flush_notify start=/if let Some\(listener\) = self\.inner\.event_listener\.as_ref\(\)/ stmts=1 rules=for-tuple-pattern
+// ---- RawCache::flush after the shards were evicted (C13, C15): the listener (if any) is told about every evicted record
+// once, AND -- independently of whether there is a listener -- every evicted record is handed to pipe.flush exactly once
+// when the pipe is enabled. One region from `let piped = ..` to the end of the function.
+// the iterator-adapter line `garbages.into_iter().map(|(_, record)| Piece::new(record)).collect_vec()` is outside
+// Verus; it is replaced by the prelude function `pieces_of` (assumed: one piece per garbage record, in order)
+//@region foyer-memory/src/raw.rs :: impl~^impl<E, S, I> RawCache<E, S, I> where/fn flush name=flush_dispatch start=/let piped = self\.pipe\.is_enabled\(\);/ stmts=99 rules=for-tuple-pattern,de-async subopt=@garbages\.into_iter\(\)\.map\(\|\(_, record\)\| Piece::new\(record\)\)\.collect_vec\(\)@pieces_of(garbages)@
 //@head
-    fn flush_notify(&mut self, garbages: &Vec<(Event, Arc<Record<E>>)>)
+    fn flush_dispatch(&mut self, garbages: Vec<(Event, Arc<Record<E>>)>)
         ensures
-            final(self).pipe == old(self).pipe, // @label notify_phase_sends_nothing
+            final(self).pipe.enabled == old(self).pipe.enabled,
+            final(self).pipe.sent@ == old(self).pipe.sent@, // @label flush_does_not_use_send
             final(self).inner.event_listener.l.is_some() == old(self).inner.event_listener.l.is_some(),
             old(self).inner.event_listener.l.is_some() ==> final(self).inner.event_listener.log() == old(self).inner.event_listener.log() + notes_of(garbages@), // @label each_flushed_record_notified_once_with_its_event
+            old(self).pipe.enabled ==> final(self).pipe.flushed@ == old(self).pipe.flushed@ + garbages@.map_values(|x: (Event, Arc<Record<E>>)| x.1), // @label every_flushed_record_handed_to_pipe_once_with_or_without_a_listener
+            !old(self).pipe.enabled ==> final(self).pipe.flushed@ == old(self).pipe.flushed@, // @label nothing_handed_over_when_pipe_disabled
 //@loop 1 iter=it
                 invariant
                     listener.left@ == l0 + notes_of(garbages@.subrange(0, it.index@ as int)),
+                    self.pipe == old(self).pipe, piped == old(self).pipe.enabled,
 //@before /for verif_item in/
             let ghost l0 = listener.left@;
 //@after /let \(event, record\) = verif_item;/
@@ -751,22 +759,8 @@ impl<E: Eviction> CacheT<E> {
                     lemma_prefix_step(garbages@, it.index@ as int);
                     assert(notes_of(garbages@.subrange(0, it.index@ + 1)) =~= notes_of(garbages@.subrange(0, it.index@ as int)).push((verif_item.0, verif_item.1.spec_key(), verif_item.1.spec_value())));
                 }
-//@tail
+//@before /if piped \{/
         proof { assert(garbages@.subrange(0, garbages@.len() as int) == garbages@); }
-//@end
-
-// ---- RawCache::flush hand-off: every evicted record goes to pipe.flush exactly once (C15)
-// the iterator-adapter line `garbages.into_iter().map(|(_, record)| Piece::new(record)).collect_vec()` is outside
-// Verus; it is replaced by the prelude function `pieces_of` (assumed: one piece per garbage record, in order)
-//@region foyer-memory/src/raw.rs :: impl~^impl<E, S, I> RawCache<E, S, I> where/fn flush name=flush_handoff start=/if piped \{/ stmts=1 rules=de-async sub=@garbages\.into_iter\(\)\.map\(\|\(_, record\)\| Piece::new\(record\)\)\.collect_vec\(\)@pieces_of(garbages)@
-//@head
-    fn flush_handoff(&mut self, piped: bool, garbages: Vec<(Event, Arc<Record<E>>)>)
-        requires piped == old(self).pipe.enabled,
-        ensures
-            final(self).pipe.enabled == old(self).pipe.enabled,
-            final(self).pipe.sent@ == old(self).pipe.sent@, // @label flush_does_not_use_send
-            old(self).pipe.enabled ==> final(self).pipe.flushed@ == old(self).pipe.flushed@ + garbages@.map_values(|x: (Event, Arc<Record<E>>)| x.1), // @label every_flushed_record_handed_to_pipe_once
-            !old(self).pipe.enabled ==> final(self).pipe.flushed@ == old(self).pipe.flushed@, // @label nothing_handed_over_when_pipe_disabled
 //@end
 }
 
